@@ -96,7 +96,9 @@ def shrink(c):
 
 
 # ---- command-line glue: a multi-alignment Phylip input must be treated as its alignments one by one (`detmulti`) ----
-MULTI_CMDS = [['clean', 'sites', '-c', '0.3'], ['clean', 'sites', '-c', '0.3', '--positions', 'kept.txt', '--positions-rm', 'rm.txt'], ['clean', 'sites', '--char', 'MAJ', '-c', '0.6'], ['clean', 'seqs', '-c', '0.3'], ['clean', 'sites', '--ends', '-c', '0.2']]
+MULTI_CMDS = [['clean', 'sites', '-c', '0.3'], ['clean', 'sites', '-c', '0.3', '--positions', 'kept.txt', '--positions-rm', 'rm.txt'], ['clean', 'sites', '--char', 'MAJ', '-c', '0.6'], ['clean', 'seqs', '-c', '0.3'], ['clean', 'sites', '--ends', '-c', '0.2'],
+              ['clean', 'sites', '--char', 'A', '--reverse', '-c', '0.5'], ['clean', 'sites', '--char', 'MAJ', '--ignore-gaps', '-c', '0.5'], ['clean', 'sites', '--char', 'a', '--ignore-case', '-c', '0.4']]
+MULTI_CMDS_N = [['clean', 'sites', '--char', 'N', '-c', '0.3'], ['clean', 'sites', '--ignore-n', '-c', '0.3'], ['clean', 'seqs', '--char', 'N', '-c', '0.2']]
 
 
 def _gen_large(rng, tier):
@@ -126,4 +128,6 @@ def gen(rng, tier):
     for _ in range(2 if tier == "quick" else 20):
         for argv in MULTI_CMDS:
             yield multigen.multi_case(multigen.alignments(rng), argv, "cli-multi-" + "-".join(argv[:2]))
+        for argv in MULTI_CMDS_N:      # the flags that concern N need alignments holding N
+            yield multigen.multi_case(multigen.alignments(rng, alphabet="ACGTN"), argv, "cli-multi-" + "-".join(argv[:2]) + "-n")
 
